@@ -210,4 +210,12 @@ def joinPending (n : Nat) (s : S) : S := (List.range n).foldl joinOne s
 `UpdateWithChangeSet`) -/
 def endBlockC (n : Nat) (s : S) : List (Nat × Nat) × Except CometErr S := endBlock n (joinPending n s)
 
+
+/-- recovery `RotateRecoveryAddress` of a validator's owner. Validators are indexed by their consensus key here, which a
+rotation keeps: status, counters, queues and the consensus set are untouched. The jail record is keyed by the OLD
+operator address in the store and is not moved, so for the rotated validator it is gone (an unjail proposal then fails:
+"no jail info" - the validator stays jailed). Refused for an account without a validator record. -/
+def rotateOwner (s : S) (v : Nat) : Option S :=
+  if s.claimed v then some { s with jailTime := upd s.jailTime v none } else none
+
 end Sekai.Stake
